@@ -133,9 +133,10 @@ Section Plain.
     destruct k1 as [atoms|? ? ?]; [|destruct H]. destruct r; [exact H|destruct H].
   Qed.
 
-  Lemma plain_obj : forall n cl o qn, wfr cl -> fits n cl o = true -> noq o = true -> plain_tree (eobj n qn o) = true.
+  Lemma plain_obj : forall n cl o qn, wfr cl -> fits n cl o = true -> noq o = true -> exact_classes u n cl o = true ->
+    plain_tree (eobj n qn o) = true.
   Proof.
-    induction n as [|n IH]; intros cl o qn Hwf Hfit Hnq; [discriminate|].
+    induction n as [|n IH]; intros cl o qn Hwf Hfit Hnq Hex; [discriminate|].
     destruct (fits_inv c u ok py_isspace n cl o Hfit) as [fs [m [-> [Hm [Hnames [Hfa [Hfe Hft]]]]]]].
     destruct (wfr_inv u cl Hwf) as [m' [Hm' [Hmc [Hwc Hnest]]]]. rewrite Hm in Hm'. inversion Hm'; subst m'. clear Hm'.
     cbn [RoundtripGen.eobj]. rewrite Hm. cbn [plain_tree].
@@ -191,6 +192,19 @@ Section Plain.
           { destruct (ps_src _ _ _ _ (class_pairs_fits c u ok _ _ cl fs m Hwc Hnames Hfe) (var, x) Hvv) as [_ [_ [Hw|[f0 [t0 [l0 [_ [_ [_ [El Hil]]]]]]]]]]; cbn [fst snd] in *.
             - unfold pair_whole in Hw. cbn [fst snd] in Hw. rewrite Hw. apply (noq_field cl fs var Hnq).
             - apply (noq_item t0 l0 x); [rewrite <- El; apply (noq_field cl fs var Hnq)|exact Hil]. }
+          assert (Hexy : forall kd y, v_clazz var = Some kd -> v_tokens_factory var = None -> In y (occ var x) ->
+                    exact_classes u n kd y = true).
+          { intros kd y Hcl Htf Hy. cbn [exact_classes] in Hex. rewrite Hm in Hex. apply andb_true_iff in Hex as [_ Hex].
+            destruct Hev as [_ Hine]. rewrite forallb_forall in Hex. specialize (Hex _ Hine). cbn [snd forallb] in Hex.
+            rewrite andb_true_r, Hcl in Hex.
+            destruct (ps_src _ _ _ _ (class_pairs_fits c u ok _ _ cl fs m Hwc Hnames Hfe) (var, x) Hvv)
+              as [_ [Hxn [Hw|[f0 [t0 [l0 [_ [_ [_ [El Hil]]]]]]]]]]; cbn [fst snd] in *.
+            - unfold pair_whole in Hw. cbn [fst snd] in Hw. rewrite <- Hw in Hex.
+              unfold occ in Hy. rewrite Htf in Hy. destruct x as [| |tt l| | | |]; try destruct Hy as [<-|[]]; try exact Hex; try congruence.
+              rewrite forallb_forall in Hex. apply (Hex y Hy).
+            - rewrite El in Hex. rewrite forallb_forall in Hex. specialize (Hex x Hil).
+              unfold occ in Hy. rewrite Htf in Hy. destruct x as [| |tt l| | | |]; try destruct Hy as [<-|[]]; try exact Hex; try congruence.
+              destruct n; discriminate Hex. }
           assert (Hitem : forall y, In y (occ var x) ->
                     (exists q a k, ienode c u ign n var y = EElem q a k) /\ plain_tree (ienode c u ign n var y) = true).
           { intros y Hy.
@@ -201,12 +215,23 @@ Section Plain.
             pose proof (noq_occ var x y Hnx Hy) as Hny.
             destruct (wf_elem_inv var Hw) as [_ [_ [[k [Hty [Hcl Htf]]]|[[t [Hty [Hst Hcl]]]|[Hty [_ Htf3]]]]]].
             3:{ rewrite Htf3 in *. destruct (fits_item_qname c u ok _ var y Hty Hok) as [q1 [-> _]]. discriminate Hny. }
-            - rewrite Htf in *. destruct (fits_item_class c u ok _ var k y Hty Hok) as [cl' [fs' [-> Hfk]]].
-              cbn [RoundtripGen.e_item]. split.
+            - pose proof (Hexy k y Hcl Htf Hy) as Hey.
+              rewrite Htf in *. destruct (fits_item_class c u ok _ var k y Hty Hok) as [cl' [fs' [-> Hfk0]]].
+              assert (Ecl : cl' = k).
+              { destruct n as [|n']; [discriminate Hey|]. cbn [exact_classes] in Hey. apply andb_true_iff in Hey as [Hey _].
+                apply N.eqb_eq in Hey. exact Hey. }
+              subst cl'.
+              assert (Hfk : fits n k (VObj k fs') = true).
+              { destruct Hfk0 as [[_ H]|[Hd _]]; [exact H|].
+                destruct (derived_ok_inv c u ok var k k Hd) as [Hne _]. congruence. }
+              cbn [RoundtripGen.e_item].
+              assert (Ex : xsi_for u var k = None).
+              { unfold xsi_for. rewrite Hty. cbn [existsb ptype_eqb]. rewrite N.eqb_refl. reflexivity. }
+              rewrite Ex, add_xsi_e_none. split.
               + destruct n as [|n']; [discriminate Hfk|].
                 destruct (fits_inv c u ok py_isspace n' k _ Hfk) as [fs'' [mk [E [Hmk _]]]]. inversion E; subst.
                 cbn [RoundtripGen.eobj]. rewrite Hmk. eauto.
-              + apply (IH k); [|exact Hfk|exact Hny]. apply (Hnest _ var k Hin (or_introl eq_refl) Hcl).
+              + apply (IH k); [|exact Hfk|exact Hny|exact Hey]. apply (Hnest _ var k Hin (or_introl eq_refl) Hcl).
             - destruct (v_tokens_factory var) as [tf|] eqn:Etf.
               + destruct (fits_tokens_inv c u ok py_isspace var tf y t Hty Hok) as [tp [l [-> [_ [Htk _]]]]].
                 split; [unfold RoundtripGen.e_prim; eauto|]. apply (plain_prim var t). apply vs_tokens. exact Htk.
